@@ -1,5 +1,6 @@
 import GopatchModel.Intervals
 import GopatchModel.Spec.AstDiffSame
+import GopatchModel.Spec.AlignKeeps
 namespace Gopatch.C17
 open Gopatch
 
@@ -171,6 +172,42 @@ theorem unchanged_syntax_reports_nothing (old new : AD.AV) (h : AD.Same old new)
 /-- and `compareNodes` finds such trees equal, so an untouched element of a list can be paired as identical -/
 theorem unchanged_syntax_compares_equal (old new : AD.AV) (h : AD.Same old new) : (AD.cmp old new).equal = true := by
   simp [AD.Res.equal, AD.cmp_same old new h]
+
+/-- **The script of `diff.Difference` accounts for both lists completely**, whatever the comparison says and
+whether or not its search budget ran out. -/
+theorem list_diff_accounts_for_both_lists (nx ny : Nat) (f : Int → Int → AD.Res) :
+    AD.lenX (AD.difference nx ny f).1 = nx ∧ AD.lenY (AD.difference nx ny f).1 = ny :=
+  AD.difference_len nx ny f
+
+/-- **Declarations that were not rewritten are paired with themselves.** A list of nodes of which any number
+were rewritten in place (`kept i = false`): every other element, unchanged up to positions and comments, gets
+the fate "identical to element `i` of the new list" from `alignSlices` — so nothing is reported for it and its
+comment associations are carried over — provided no element of the old list is identical to a *different*
+element of the new list (twins) and fewer than 64 rewritten elements stand in a row (the look-ahead). -/
+theorem untouched_elements_paired_with_themselves (old new : List AD.AV) (kept : Nat → Bool)
+    (hlen : old.length = new.length)
+    (hk : ∀ (i : Nat) (f t : AD.AV), old[i]? = some f → new[i]? = some t → kept i = true → AD.Same f t)
+    (hnk : ∀ (i : Nat) (f t : AD.AV), old[i]? = some f → new[i]? = some t → kept i = false → (AD.cmp f t).equal = false)
+    (htwins : ∀ (i k : Nat) (f t : AD.AV), old[i]? = some f → new[k]? = some t → i ≠ k → (AD.cmp f t).equal = false)
+    (hrun : ∀ i a, i < old.length → kept i = true → a ≤ i → (∀ t, a ≤ t → t < i → kept t = false) → i - a < 64) :
+    ∀ i, i < old.length → kept i = true →
+      (AD.fates (AD.alignSlices (AD.cmpRows old new) old.length new.length).1 0)[i]? = some (.same i) := by
+  rw [← hlen]
+  apply AD.alignSlices_keeps (AD.cmpRows old new) old.length kept
+  · intro i hi hki
+    have hi' : i < new.length := hlen ▸ hi
+    rw [AD.lookup_cmpRows old new i i old[i] new[i] (by simp [hi]) (by simp [hi'])]
+    have := AD.cmp_same _ _ (hk i old[i] new[i] (by simp [hi]) (by simp [hi']) hki)
+    simp [AD.Res.equal, this]
+  · intro i hi hki
+    have hi' : i < new.length := hlen ▸ hi
+    rw [AD.lookup_cmpRows old new i i old[i] new[i] (by simp [hi]) (by simp [hi'])]
+    exact hnk i old[i] new[i] (by simp [hi]) (by simp [hi']) hki
+  · intro i k hi hk' hik
+    have hk'' : k < new.length := hlen ▸ hk'
+    rw [AD.lookup_cmpRows old new i k old[i] new[k] (by simp [hi]) (by simp [hk''])]
+    exact htwins i k old[i] new[k] (by simp [hi]) (by simp [hk'']) hik
+  · exact hrun
 
 /-- a region that keeps clear of a stretch in this sense is `clearOf` it: the link to `respects` above -/
 theorem clear_region_respects (lo hi : Nat) (r : AD.Rg) (h : r.stop ≤ lo ∨ r.pos = 0 ∨ hi ≤ r.pos) :
